@@ -25,7 +25,7 @@ def run(ctx):
             metas, lines, cid = [], [], 700000
             for variant in gen.VARIANTS:
                 for j in range(ctx.budget(2, 12)):
-                    line, m = cli.make_case(ctx.rng.fork('w%d' % cid), cid, wd, variant=variant)
+                    line, m = cli.make_case(ctx.rng.fork('w%d' % cid), cid, wd, variant=variant, const_w=True)
                     lines.append(line)
                     metas.append(m)
                     cid += 1
